@@ -54,7 +54,7 @@ CLASSES = [
     "refuse_newer", "refuse_older", "refuse_legacy_layout",
     "migrate_v0", "migrate_v1", "custom_ws", "nested_ws", "collision_raises",
     "nondefault_name", "with_cache", "with_history",
-    "idempotent_second_run", "uptodate_noop", "random_name",
+    "idempotent_second_run", "uptodate_noop", "random_name", "config_replaced_same_size_and_mtime",
 ]
 ASSUMPTIONS = [
     "legacy projects are those signac 1.x could write: signac.rc holding project=<name>, optional relative "
@@ -418,12 +418,30 @@ def _run_refuse(case, ctx):
         ws = case.get("ws") if layout == "legacy" else None
         if layout == "v2":
             os.makedirs(os.path.join(root, ".signac"))
+            if case.get("was_current") and version is not None and len(str(version)) == 1:
+                # the same process has worked with this project while it was at the supported version; then the
+                # configuration is replaced by one of another version -- same size, same modification time
+                # (rsync -t, cp -p, a file system with coarse timestamps)
+                cl.add("config_replaced_same_size_and_mtime")
+                cfg0 = ConfigObj(os.path.join(root, ".signac", "config"))
+                cfg0["schema_version"] = "2"
+                cfg0.write()
+                st0 = os.stat(os.path.join(root, ".signac", "config"))
+                try:
+                    p0 = signac.Project(root)
+                    signac.get_project(root)
+                    del p0
+                except Exception as e:
+                    raise HarnessError(f"opening the project at the supported version failed: {e}")
+                shutil.rmtree(os.path.join(root, "workspace"), ignore_errors=True)
             cfg = ConfigObj(os.path.join(root, ".signac", "config"))
             if version is not None:
                 cfg["schema_version"] = version
             cfg.write()
             if version is None:  # ConfigObj writes nothing for an empty config
                 _write(os.path.join(root, ".signac", "config"), b"")
+            if "config_replaced_same_size_and_mtime" in cl:
+                os.utime(os.path.join(root, ".signac", "config"), ns=(st0.st_atime_ns, st0.st_mtime_ns))
             # absent means '1' by the configuration default
             cl.add("refuse_newer" if version is not None and int(version) > 2 else "refuse_older")
         else:
@@ -530,6 +548,8 @@ def refusal_space():
                 for entry in ENTRIES:
                     for n in range(4):
                         yield {"kind": "refuse", "layout": layout, "ws": ws, "version": version, "entry": entry, "jobs": _jobs(n, i)}
+                        if layout == "v2" and n == 1 and version is not None and len(str(version)) == 1:
+                            yield {"kind": "refuse", "layout": layout, "ws": ws, "version": version, "entry": entry, "jobs": _jobs(n, i), "was_current": True}
                         i += 1
 
 
